@@ -112,6 +112,14 @@ def main(argv):
     if assum is None:
         problems.append({'kind': 'proof', 'what': '%s/Property.v does not check' % pid,
                          'detail': (aerr or '')[-3000:]})
+    chk = None
+    if tier == 'thorough' and not replay and ok and os.environ.get('VERIF_NO_COQCHK') != '1':
+        cok, cfields, csum = C.coqchk(pid)
+        chk = {'ok': cok, 'summary': cfields}
+        if not cok or any(v not in ('<none>',) for k, v in cfields.items()):
+            # stdlib axioms would be listed here; none are expected in this development
+            problems.append({'kind': 'proof', 'what': 'coqchk does not accept %s/Property.vo with an empty axiom/unsafe context' % pid,
+                             'detail': csum})
     forb = C.forbidden_scan()
     if forb:
         problems.append({'kind': 'proof', 'what': 'forbidden vernacular in the development',
@@ -184,6 +192,8 @@ def main(argv):
         ('none (%d theorems closed under the global context)' % assum['closed']
          if assum and not assum['axioms'] else (json.dumps(assum['axioms']) if assum else 'unavailable')),
         'no extraction: model and spec are evaluated by coqc on literals written by harness/%s.py' % pid.lower(),
+        ('coqchk -o (independent checker) on %s/Property.vo: %s' % (pid, json.dumps(chk['summary'])) if chk else
+         'coqchk -o runs in the thorough tier'),
         'correspondence harness (generators, canonicalisation of tensors to nested integer lists)',
     ] + list(getattr(mod, 'TRUSTED', []))
     samples = []
@@ -212,6 +222,7 @@ def main(argv):
             'theorems': obl_names[-40:],
             'repo_head': C.git_head(C.REPO), 'repo_dirty': C.git_dirty(C.REPO),
             'pre': pre_info,
+            'coqchk': chk,
         },
         'assumptions': list(getattr(mod, 'ASSUMPTIONS', [])),
         'wall_s': round(time.time() - t0, 2),
